@@ -118,9 +118,8 @@ structure DirShard where
 /-- greedy grouping of `consolidate_shards_in_directory`: returns the exclusive upper index of the
     group starting at the head, given the sizes (`shards` already in modification-time order). -/
 def groupEnd (target : Nat) : Nat → List Nat → Nat → Nat
-  | cur, [], _ => cur
+  | _, [], idx => idx
   | cur, sz :: rest, idx => if sz + cur ≥ target then idx else groupEnd target (cur + sz) rest (idx + 1)
-termination_by _ l _ => l.length
 
 structure Consolidated where
   finished : List DirShard           -- returned shards, in order
